@@ -184,6 +184,23 @@ def run(rep, pdb, tier):
     tsets = [e for e in effs if e.kind == "set" and e.loops and talloc and e.target == talloc[0].target]
     okt = len(tsets) == 1 and len(talloc) == 1
     tvar = None
+    if not talloc:
+        # the term created around its zero vector: `let mut t = Polynomial::new(vec![zero; shift + 1]); t.coeffs[shift] = lead(r) / lead(v);`
+        cands = [e for e in effs if e.kind == "set" and e.loops and e.target[0] == "field" and e.target[2] == "coeffs" and e.target[1][0] == "var" and e.target[1] not in (qvar, rvar)]
+        if len(cands) == 1:
+            ts = cands[0]
+            tv_ = ts.target[1]
+            tb = ctx.binds.get(tv_[1])
+            ti = ctx.term(tb.init) if tb is not None and tb.init is not None else None
+            idx_ = ctx.def_term(ts.index) if ts.index[0] == "var" and ctx.def_term(ts.index) is not None else ts.index
+            alloc_ok = ti is not None and ti[0] == "call" and str(ti[1]) == "%s::new" % PT and len(ti) == 3 and ti[2][0] == "call" and str(ti[2][1]).endswith("from_elem") and \
+                is_zero_term(ti[2][2]) and ti[2][3] == lin_add(diff, num(1))
+            okt = alloc_ok and idx_ == diff and ts.value == ("op", "/", ("idx", R, degr), ("idx", CO1, degv)) and tb.node is not None and any(x is w for x in ancestors(tb.node)) and \
+                not [e for e in effs if e.kind == "set" and e.target == ts.target and e is not ts]
+            tvar = tv_
+            tsets = [ts]
+            rep.add("term", "the quotient term has length deg r - deg v + 1 with its single non-zero entry at index deg r - deg v equal to lead(r) / lead(v) (lead(v) is the divisor)", okt, ts.node, "created around its zero vector")
+            okt = None
     if okt:
         ts, ta = tsets[0], talloc[0]
         tvar = ta.target[1]
@@ -191,7 +208,8 @@ def run(rep, pdb, tier):
             ts.index == diff and ts.value == ("op", "/", ("idx", R, degr), ("idx", CO1, degv)) and _pos(ta.node) < _pos(ts.node)
         tb = ctx.binds.get(tvar[1]) if tvar[0] == "var" else None
         okt = okt and tb is not None and tb.node is not None and any(x is w for x in ancestors(tb.node))
-    rep.add("term", "the quotient term has length deg r - deg v + 1 with its single non-zero entry at index deg r - deg v equal to lead(r) / lead(v) (lead(v) is the divisor)", okt, tsets[0].node if tsets else w, "")
+    if okt is not None:
+        rep.add("term", "the quotient term has length deg r - deg v + 1 with its single non-zero entry at index deg r - deg v equal to lead(r) / lead(v) (lead(v) is the divisor)", okt, tsets[0].node if tsets else w, "")
     # ---- update pair
     qa = [e for e in effs if e.kind == "assign" and e.target == qvar and e.loops]
     ra = [e for e in effs if e.kind == "assign" and e.target == rvar and e.loops]
